@@ -162,6 +162,22 @@ theorem trim_infix (cs s : Bytes) : ∃ a b, s = a ++ trim cs s ++ b := by
   unfold trim
   rw [List.append_assoc, ← hb, ← ha]
 
+/-- every element of a joined list is an infix of the joined string -/
+theorem mem_join_infix (sep : Bytes) (ps : List Bytes) (t : Bytes) (h : t ∈ ps) :
+    ∃ pre post, join sep ps = pre ++ t ++ post := by
+  induction ps with
+  | nil => cases h
+  | cons p qs ih =>
+    cases qs with
+    | nil =>
+      have ht : t = p := by simpa using h
+      exact ⟨[], [], by simp [join, ht]⟩
+    | cons q rs =>
+      rcases List.mem_cons.1 h with h | h
+      · exact ⟨[], sep ++ join sep (q :: rs), by simp [join, h]⟩
+      · obtain ⟨pre, post, hp⟩ := ih h
+        exact ⟨p ++ sep ++ pre, post, by rw [join, hp]; simp⟩
+
 /-- `strings.Index` finds every infix -/
 theorem index_isSome_of_infix (sub pre post : Bytes) : (index sub (pre ++ sub ++ post)).isSome = true := by
   induction pre with
